@@ -99,6 +99,8 @@ pub struct RunIo {
     pub trace: Option<Vec<String>>,
     /// errors handed to the code under test, in order: (object, call index, kind)
     pub errors_returned: Vec<(u32, u64, &'static str)>,
+    /// spelling of path arguments in this run (set by SimFs::new)
+    pub path_style: Option<&'static str>,
     next_obj: u32,
 }
 pub type Io = Rc<RefCell<RunIo>>;
@@ -111,6 +113,7 @@ pub fn new_io(ftape: Tape, trace: bool) -> Io {
         sim_ns: 0,
         trace: if trace { Some(Vec::new()) } else { None },
         errors_returned: Vec::new(),
+        path_style: None,
         next_obj: 0,
     }))
 }
@@ -477,10 +480,59 @@ pub struct SimFs {
     plans: RefCell<BTreeMap<String, FilePlan>>,
     /// every handle ever created for a path keeps its high-water mark here
     pub read_marks: RefCell<BTreeMap<String, Rc<RefCell<u64>>>>,
+    /// how this run spells the path arguments it hands to the code under test (see [SimFs::sp])
+    pub path_style: u64,
+    spelled: RefCell<BTreeMap<String, String>>,
 }
+pub const PATH_STYLES: [&str; 12] = ["absolute", "relative", "dot-dotdot", "upper-ext", "no-ext", "many-dots", "non-ascii+space", "long-name", "hidden", "other-ext", "double-slash", "odd-length+percent"];
 impl SimFs {
     pub fn new(io: &Io) -> Rc<Self> {
-        Rc::new(SimFs { io: io.clone(), files: RefCell::new(BTreeMap::new()), plans: RefCell::new(BTreeMap::new()), read_marks: RefCell::new(BTreeMap::new()) })
+        // the environment of the calls is part of the schedule: half of the runs use plain absolute paths
+        let path_style = {
+            let mut i = io.borrow_mut();
+            if i.ftape.chance(1, 2) {
+                0
+            } else {
+                i.ftape.draw(PATH_STYLES.len() as u64)
+            }
+        };
+        io.borrow_mut().path_style = Some(PATH_STYLES[path_style as usize]);
+        Rc::new(SimFs { io: io.clone(), files: RefCell::new(BTreeMap::new()), plans: RefCell::new(BTreeMap::new()), read_marks: RefCell::new(BTreeMap::new()), path_style, spelled: RefCell::new(BTreeMap::new()) })
+    }
+    pub fn path_style_name(&self) -> &'static str {
+        PATH_STYLES[self.path_style as usize]
+    }
+    /// The spelling under which this run passes the file `canonical` ("/sim/<stem>.<ext>") to the code under test.
+    /// Checks keep addressing the store by the canonical name; `create`/`open` map the spelling back.
+    pub fn sp(&self, canonical: &str) -> String {
+        let name = canonical.rsplit('/').next().unwrap_or(canonical);
+        let (stem, ext) = match name.rfind('.') {
+            Some(i) => (&name[..i], &name[i + 1..]),
+            None => (name, ""),
+        };
+        let s = match self.path_style {
+            0 => canonical.to_string(),
+            1 => name.to_string(),
+            2 => format!("./work/../{}", name),
+            3 => format!("/sim/{}.{}", stem, ext.to_uppercase()),
+            4 => format!("/sim/{}_{}", stem, ext),
+            5 => format!("/sim/{}.v2.final.{}", stem, ext),
+            6 => format!("/sim/\u{82af}\u{7247} \u{df} {}.{}", stem, ext),
+            7 => format!("/sim/{}{}.{}", stem, "x".repeat(240 - stem.len().min(200)), ext),
+            8 => format!("/sim/.{}.{}", stem, ext),
+            9 => format!("/sim/{}.{}.bak", stem, ext),
+            10 => format!("//sim///{}", name),
+            _ => format!("/sim/{}%20#1.{}", stem, ext),
+        };
+        self.spelled.borrow_mut().insert(s.clone(), canonical.to_string());
+        s
+    }
+    fn canon(&self, path: &Path) -> String {
+        let p = path.to_string_lossy().to_string();
+        match self.spelled.borrow().get(&p) {
+            Some(c) => c.clone(),
+            None => p,
+        }
     }
     pub fn plan(&self, path: &str, plan: FilePlan) {
         self.plans.borrow_mut().insert(path.to_string(), plan);
@@ -512,7 +564,7 @@ impl Drop for VfsGuard {
 }
 impl layout21utils::verif::Vfs for SimFs {
     fn create(&self, path: &Path) -> Result<Box<dyn layout21utils::verif::VFile>> {
-        let p = path.to_string_lossy().to_string();
+        let p = self.canon(path);
         let plan = self.plan_of(&p);
         let mut io = self.io.borrow_mut();
         io.k(K::Creates);
@@ -530,7 +582,7 @@ impl layout21utils::verif::Vfs for SimFs {
         Ok(Box::new(SimFile::W(SimSink::with_store(&self.io, plan.write, store))))
     }
     fn open(&self, path: &Path) -> Result<Box<dyn layout21utils::verif::VFile>> {
-        let p = path.to_string_lossy().to_string();
+        let p = self.canon(path);
         let plan = self.plan_of(&p);
         let mut io = self.io.borrow_mut();
         io.k(K::Opens);
